@@ -17,6 +17,7 @@ import (
 	"strings"
 
 	"golang.org/x/tools/go/ssa"
+	"golang.org/x/tools/go/ssa/ssautil"
 )
 
 // ---------------------------------------------------------------------------------------------
@@ -301,6 +302,8 @@ func (g *genModel) structFieldValue(x ssa.Value, field int, d int) (ssa.Value, b
 		if t.Op == token.MUL {
 			return g.structFieldValue(t.X, field, d+1) // the struct a pointer points to
 		}
+	case *ssa.Global:
+		return globalStructField(t, field)
 	case *ssa.Alloc:
 		var whole ssa.Value
 		nWhole := 0
@@ -330,6 +333,66 @@ func (g *genModel) structFieldValue(x ssa.Value, field int, d int) (ssa.Value, b
 		case nWhole == 0 && nField == 1:
 			return fv, true
 		}
+	}
+	return nil, false
+}
+
+// globalStructField: the value of field #field of a package-level struct variable that is written only by its
+// initialiser (one store per field, in the package's init) and otherwise only read.
+func globalStructField(g *ssa.Global, field int) (ssa.Value, bool) {
+	if g.Pkg == nil {
+		return nil, false
+	}
+	if _, ok := g.Type().Underlying().(*types.Pointer).Elem().Underlying().(*types.Struct); !ok {
+		return nil, false
+	}
+	var fv ssa.Value
+	n := 0
+	for f := range ssautil.AllFunctions(g.Pkg.Prog) {
+		if !(f.Pkg == g.Pkg || (f.Parent() != nil && f.Parent().Pkg == g.Pkg)) {
+			continue
+		}
+		for _, b := range f.Blocks {
+			for _, in := range b.Instrs {
+				for _, op := range in.Operands(nil) {
+					if op == nil || *op != ssa.Value(g) {
+						continue
+					}
+					switch t := in.(type) {
+					case *ssa.UnOp:
+						if t.Op != token.MUL {
+							return nil, false
+						}
+					case *ssa.FieldAddr:
+						for _, rr := range *t.Referrers() {
+							switch x := rr.(type) {
+							case *ssa.Store:
+								if x.Addr != ssa.Value(t) || f.Name() != "init" || f.Parent() != nil {
+									return nil, false
+								}
+								if t.Field == field {
+									fv = x.Val
+									n++
+								}
+							case *ssa.UnOp:
+								if x.Op != token.MUL {
+									return nil, false
+								}
+							case *ssa.DebugRef:
+							default:
+								return nil, false
+							}
+						}
+					case *ssa.DebugRef:
+					default:
+						return nil, false // stored whole, address passed on: not followed
+					}
+				}
+			}
+		}
+	}
+	if n == 1 {
+		return fv, true
 	}
 	return nil, false
 }
